@@ -275,6 +275,22 @@ def gate_rule(ctx, crate):
         trig = all(x in core_g for x in ("\\$", "\\{?", "0-9", "@"))
         trig_r = all(x in rlit for x in ("\\$", "\\{?", "0-9", "@"))
         ok = bool(gi.get("ok")) and unanchored and trig and trig_r
+    if glit is not None and rlit is not None:
+        import itertools
+        cache = crate.__dict__.get("_r15_5")
+        if cache is None or cache[0] != (glit, rlit):
+            texts = ["".join(t) for n in range(1, 6) for t in itertools.product("${}1@a", repeat=n)]
+            gm = refacts.matches(glit, texts)
+            rm = refacts.matches(rlit, texts)
+            miss = [t for t, a_, b_ in zip(texts, gm, rm) if b_ and not a_]
+            cache = ((glit, rlit), miss, len(texts))
+            crate.__dict__["_r15_5"] = cache
+        miss, ntexts = cache[1], cache[2]
+        ctx.paths_enumerated += ntexts
+        ctx.ob("R15-5", g.path, "every word the rewriter would rewrite passes the gate (all %d words <= 5 characters over "
+                                "{$ { } 1 @ a}, both patterns evaluated with the program's regex engine)" % ntexts, not miss,
+               key="R15-5|%s|gate-covers-rewriter" % g.path, crate=crate.kind,
+               detail=None if not miss else "e.g. %r matches the rewriter's pattern but not the gate: it stays unexpanded" % miss[0])
     ctx.ob("R15-5", g.path, "the gate searches the whole word for the rewriter's trigger", ok,
            key="R15-5|%s|gate" % g.path, crate=crate.kind,
            detail=detail if ok else detail + ": cannot establish that every word the rewriter would rewrite passes the gate "
